@@ -733,8 +733,16 @@ def runSection (r : Report) (s : Section) : Report := Id.run do
             | _, _, some x => (.addOne x opts, [x])
             | _, _, _ => (.add 0 opts, [])
           let reused := kind = "add" ∧ (st.groups.any fun g => g.routes == routes)
-          st := { st with built := true, api := st.api.step op, groups := st.groups ++ [{ opts := opts, routes := routes }],
-                          mws := st.mws ++ [nmw] }
+          -- validateSecret: an option that panics leaves AddRoutes before engine.addRoutes — nothing is registered
+          let panics := op.panics
+          if panics then
+            st := { st with built := true, api := st.api.stepChecked op }
+            r := r.addCover "api-option-panics-short-secret"
+          else
+            st := { st with built := true, api := st.api.stepChecked op, groups := st.groups ++ [{ opts := opts, routes := routes }],
+                            mws := st.mws ++ [nmw] }
+          if panics != l.obs.contains "panic:secret" then
+            r := r.mismatch s.idx l.idx (if panics then "panic:secret" else "no-panic") (joinSp l.obs)
           -- coverage: the forms of the public API
           r := r.addCover (if kind = "add" then "api-AddRoutes" else "api-AddRoute")
           if reused then r := r.addCover "api-same-slice-added-again"
